@@ -27,7 +27,10 @@ EXTRA = {"C05_B": ["C17"], "C15_B": ["C15", "C16"], "C16_B": ["C16", "C15"], "C1
          "C07_L": ["C07", "C15", "C04"], "C08_K": ["C08", "C04"], "C08_L": ["C08", "C13"], "C10_K": ["C10", "C17"], "C10_L": ["C10", "C13"],
          "C15_K": ["C15", "C16", "C17"], "C15_L": ["C15", "C10"], "C20_K": ["C20", "C15"], "C20_L": ["C20", "C17", "C15"], "C11_L": ["C11", "C12"],
          "C12_K": ["C12", "C15"], "C16_K": ["C16", "C15"],
-         "C01_K": ["C01", "C03"], "C01_L": ["C01", "C15", "C03"], "C05_K": ["C05", "C15", "C17"], "C05_L": ["C05", "C17"]}
+         "C01_K": ["C01", "C03"], "C01_L": ["C01", "C15", "C03"], "C05_K": ["C05", "C15", "C17"], "C05_L": ["C05", "C17"],
+         "C02_N": ["C02", "C13"], "C06_M": ["C06", "C13"], "C04_M": ["C04", "C13"], "C08_N": ["C08", "C13"], "C04_N": ["C04", "C14"],
+         "C08_M": ["C08", "C14"], "C05_M": ["C05", "C15"], "C05_N": ["C05", "C03"], "C09_N": ["C09", "C15", "C16"], "C15_N": ["C15", "C16"],
+         "C20_M": ["C20", "C17"], "C13_M": ["C13", "C15"]}
 
 
 def sh(cmd):
@@ -89,7 +92,10 @@ def main():
                          "(medium-size irregular inputs, histories across objects, argument forms, float ties, cooperating edits)" if mid[-1] in "IJ" else "")
                       + ("; sixth round: the agent saw one-line summaries of A-J, was told which mechanisms are used up, and was asked for last-element slips, "
                          "error paths that leave partial state, long-input accumulation effects, interplay between the public classes, "
-                         "presence/absence combinations, exactly attained float values and two-object protocols" if mid[-1] in "KL" else ""),
+                         "presence/absence combinations, exactly attained float values and two-object protocols" if mid[-1] in "KL" else "")
+                      + ("; seventh round: the agent saw one-line summaries of A-L and a list of used-up mechanisms, was told to assume a very thorough "
+                         "tester and to look for what such a tester still holds fixed (value-dependent Python/numpy semantics, vectorised rewrites, "
+                         "output formats, rare keywords, asymmetries, pairs of options, size guards)" if mid[-1] in "MN" else ""),
             "description_and_what_it_needs_to_manifest": desc.strip(),
             "confirmed_in_scratch_worktree": {
                 "procedure": "in /tmp/wt/%s: demo on clean tree, git apply patch, 42 stable tests (guard off), demo again, revert" % prop,
